@@ -1,7 +1,7 @@
 (* C15 — property theorems only.  Each is closed by `exact <lemma>` and followed by
    Print Assumptions; the check re-compiles this file on every run. *)
 From Coq Require Import List NArith Bool.
-From MW Require Import Common.Str C15.Model C15.Proofs.
+From MW Require Import Common.Str C15.Model C15.Proofs C15.ModelMkdirs C15.ProofsMkdirs.
 Import ListNotations.
 
 (* Every path created (makedirs) or written (open "wb") by extractall, for ANY list of member
@@ -45,3 +45,80 @@ Example C15_example :
      Rejected [47;119;47;111;117;116;50;47;120]%N).
 Proof. vm_compute. repeat split. Qed.
 Print Assumptions C15_example.
+
+(* ---- os.makedirs (ModelMkdirs.v): the ancestor chain it creates.
+   `world` = the answers of the file system (exists / isdir / mkdir / open) as an arbitrary function
+   of the calls made so far, i.e. every deterministic evolution of the rest of the file system. *)
+
+(* os.makedirs(p) for p strictly inside D, with D existing in every state: every path handed to
+   os.mkdir (hence every directory created) is strictly inside D -- never D, a parent of D or a
+   sibling -- whichever intermediate directories already exist; the fuel S (length p) suffices. *)
+Theorem C15_makedirs_creates_only_inside : forall (W : world) D p h,
+  D <> [] -> ends_with_char slash D = false ->
+  (forall h', o_exists (W h') D = true) ->
+  inside D p ->
+  let '(calls, o) := makedirs W (makedirs_fuel p) h p in
+  Forall (fun s => inside D (sysop_path s)) calls /\ o <> MOutOfFuel.
+Proof. exact makedirs_creates_inside. Qed.
+Print Assumptions C15_makedirs_creates_only_inside.
+
+(* The fuel used by the model is enough for every name (no hypothesis on name). *)
+Theorem C15_makedirs_fuel_enough : forall (W : world) fuel h name,
+  length name < fuel -> snd (makedirs W fuel h name) <> MOutOfFuel.
+Proof. exact makedirs_fuel_enough. Qed.
+Print Assumptions C15_makedirs_fuel_enough.
+
+(* The whole extraction, system call by system call (expand_ops = the isdir guard of
+   nuwiki.py:307, os.makedirs, open "wb", against the evolving file system): as long as the
+   destination D stays an existing directory, every mkdir and every open-for-write of
+   extractall, for any member names, is on a path strictly inside D. *)
+Theorem C15_extractall_mkdirs_contained : forall (W : world) cwd dst names h0,
+  isabs cwd = true ->
+  all_slash (dest_dir cwd dst) = false ->
+  let D := dest_dir cwd dst in
+  (forall h, o_exists (W h) D = true) ->
+  (forall h, o_isdir (W h) D = true) ->
+  let '(calls, o) := expand_ops W h0 (fst (extractall cwd dst names)) in
+  Forall (fun s => inside D (sysop_path s)) calls /\
+  Forall (inside D) (created calls) /\
+  o <> XMakedirs MOutOfFuel.
+Proof. exact extractall_mkdirs_contained. Qed.
+Print Assumptions C15_extractall_mkdirs_contained.
+
+(* Instance: a file system holding the directories fs0 (D among them) that changes only through
+   the calls of the extraction itself. *)
+Theorem C15_extractall_mkdirs_contained_fs : forall fs0 cwd dst names,
+  isabs cwd = true ->
+  all_slash (dest_dir cwd dst) = false ->
+  let D := dest_dir cwd dst in
+  In (normpath D) fs0 ->
+  let '(calls, o) := expand_ops (fs_world fs0) [] (fst (extractall cwd dst names)) in
+  Forall (inside D) (created calls) /\ o <> XMakedirs MOutOfFuel.
+Proof. exact extractall_mkdirs_contained_fs. Qed.
+Print Assumptions C15_extractall_mkdirs_contained_fs.
+
+(* Non-vacuity: D="/w/out" and "/w/out/a" exist; makedirs("/w/out/a/b/c") creates exactly
+   "/w/out/a/b" and "/w/out/a/b/c"; and the hypotheses of the theorems hold for this D and world. *)
+Example C15_makedirs_example :
+  let D := [47;119;47;111;117;116]%N in
+  let fs0 := [D; D ++ [47;97]]%N in
+  D <> [] /\ ends_with_char slash D = false /\
+  o_exists (fs_world fs0 []) D = true /\ o_isdir (fs_world fs0 []) D = true /\
+  makedirs_fs fs0 (D ++ [47;97;47;98;47;99])%N
+  = ([D ++ [47;97;47;98]; D ++ [47;97;47;98;47;99]]%N, MDone).
+Proof. vm_compute. repeat split. discriminate. Qed.
+Print Assumptions C15_makedirs_example.
+
+(* Non-vacuity of the lifted theorem: cwd="/w", dst="out/", only "/w/out" exists; members
+   "a/b/c", "d/", "a/e": five system calls, all below /w/out. *)
+Example C15_expand_example :
+  let cwd := [47;119]%N in let dst := [111;117;116;47]%N in
+  let D := [47;119;47;111;117;116]%N in
+  dest_dir cwd dst = D /\ In (normpath D) [D] /\
+  expand_ops (fs_world [D]) [] (fst (extractall cwd dst [[97;47;98;47;99]; [100;47]; [97;47;101]]%N))
+  = ([SMkdir (D ++ [47;97])%N MkOk; SMkdir (D ++ [47;97;47;98])%N MkOk;
+      SOpen (D ++ [47;97;47;98;47;99])%N true;
+      SMkdir (D ++ [47;100])%N MkOk;
+      SOpen (D ++ [47;97;47;101])%N true], XDone).
+Proof. vm_compute. repeat split. left. reflexivity. Qed.
+Print Assumptions C15_expand_example.
